@@ -395,6 +395,37 @@ def build(tier="quick", seed=0):
         pack.add(Obligation(name, lambda tier, name=name, th_rel=th_rel, want=want: prove_paths(name, th_rel, lambda p, want=want: (p.value == want, f"files on disk {p.value}, the template names {want}"), lambda m_, p: {}, allow_raise=("error",)),
                             replay=lambda w, template=template: {"call": "c17_template", "args": {"template": template, "minutes": [(22, 10), (22, 10)], "relative": True}}, functions=FU, mode="concrete history of one writer in an empty working directory"))
 
+    # the archiver (RecordArchiver): the same writer under <archive>/YYYY/mm/dd/ of the record's own time; a second run onto the same files renames, never replaces
+    def th_archiver():
+        fresh_fs()
+        D = desc()
+        t0 = _dt.datetime(2024, 5, 6, 7, 8, 9, tzinfo=UTC)
+        it.clock = [t0 + _dt.timedelta(seconds=i) for i in range(8)]
+        gens = [_dt.datetime(2017, 12, 6, 22, 10, tzinfo=UTC), _dt.datetime(2017, 12, 7, 1, 1, tzinfo=UTC), _dt.datetime(2017, 12, 7, 1, 30, tzinfo=UTC)]
+        for run in range(2):
+            w = it.call(st.g["RecordArchiver"], ["/abs/archive"], {"path_template": "{name}-{ts:%H}.records", "name": "t"})
+            for j, g in enumerate(gens):
+                it.call(it.getattr_(w, "write"), [it.call(D, [], {"n": SInt(vs[j]), "s": f"run{run}-{j}", "_generated": g})], {})
+            it.call(it.getattr_(w, "close"), [], {})
+        found = {path: [it.unbase(r.attrs["s"]) for r in rd_stream(path)] for path in sorted(it.vfs)}
+        return found, [e for e in it.vfs_events if e[0] in ("rename-overwrite", "overwrite")]
+
+    def judge_archiver(p):
+        found, lost = p.value
+        if lost:
+            return False, f"an existing file was replaced: {[(e[0], e[1]) for e in lost]}"
+        current = {"/abs/archive/2017/12/06/t-22.records": ["run1-0"], "/abs/archive/2017/12/07/t-01.records": ["run1-1", "run1-2"]}
+        for path, want in current.items():
+            if found.get(path) != want:
+                return False, f"{path} holds {found.get(path)}, the second run wrote {want} there; files on disk: {sorted(found)}"
+        rest = {k: v for k, v in found.items() if k not in current}
+        if sorted(rest.values()) != [["run0-0"], ["run0-1", "run0-2"]] or any(not k.startswith(("/abs/archive/2017/12/06/t-22.", "/abs/archive/2017/12/07/t-01.")) for k in rest):
+            return False, f"the files of the first run after being moved away: {rest}"
+        return True
+
+    pack.add(Obligation("C17.archive[RecordArchiver: day directories of the record's own time, two runs onto the same files]", lambda tier: prove_paths("C17.archive[RecordArchiver: day directories of the record's own time, two runs onto the same files]", th_archiver, judge_archiver, lambda m_, p: {}, allow_raise=("error",)),
+                        replay=lambda w: {"call": "c17_archiver", "args": {}}, functions=FU + ("flow.record.stream:RecordArchiver.__init__",), mode="concrete history with a modelled clock"))
+
     # ------------------------------------------------------------------ canary / conformance / bounded
     def run_canary(tier):
         def th():
